@@ -54,7 +54,7 @@ type c16Scanner struct {
 	measure                      map[types.Object]types.Object // word -> wordLen
 	measureLoop                  map[ast.Stmt]bool
 	trimLoop                     ast.Stmt // rich: the loop defining word
-	splitLoop                    *ast.RangeStmt
+	splitLoop                    ast.Stmt
 	splitOK                      bool
 	undecided                    bool
 }
@@ -323,13 +323,21 @@ func (s *c16Scanner) checkConstruction() {
 			s.und("C16.a", "pieces are single-assignment", o.Pos(), "%s is assigned more than once", o.Name())
 		}
 	}
-	// measures
+	// measures: a loop over the graphemes of X whose body is  acc += <elem>.Width
 	ast.Inspect(s.loop.Body, func(nd ast.Node) bool {
-		rs, ok := nd.(*ast.RangeStmt)
-		if !ok || rs.Value == nil || len(rs.Body.List) != 1 {
+		st, ok := nd.(ast.Stmt)
+		if !ok {
 			return true
 		}
-		as, ok := rs.Body.List[0].(*ast.AssignStmt)
+		it := c15IterOf(info, s.defs, st)
+		if it == nil || !it.full {
+			return true
+		}
+		body := c15Flat(it.body.List)
+		if len(body) != 1 {
+			return true
+		}
+		as, ok := body[0].(*ast.AssignStmt)
 		if !ok || len(as.Lhs) != 1 {
 			return true
 		}
@@ -337,16 +345,17 @@ func (s *c16Scanner) checkConstruction() {
 		if !ok {
 			return true
 		}
-		v := s.info.ObjectOf(rs.Value.(*ast.Ident))
-		inc, isAdv := c16Advance(info, as, s.info.ObjectOf(lid))
-		if !isAdv || inc.canon() != c15TermLin(fmt.Sprintf("%p", v)+".Width", v.Name()+".Width", true).canon() {
+		acc := info.ObjectOf(lid)
+		inc, isAdv := c16Advance(info, as, acc)
+		wT, found := it.elemField(as.Rhs[0], "Width")
+		if !isAdv || !found || inc.canon() != wT.canon() {
 			return true
 		}
 		// what is measured: X, or Y when X := ctx.Characters(string(Y))
-		x := s.defs.resolve(rs.X)
+		x := s.defs.resolve(it.x)
 		var measured types.Object
-		if s.isObj(rs.X, s.word) || s.isObj(rs.X, s.trSpace) {
-			measured = info.ObjectOf(unparen(rs.X).(*ast.Ident))
+		if s.isObj(it.x, s.word) || s.isObj(it.x, s.trSpace) {
+			measured = info.ObjectOf(unparen(it.x).(*ast.Ident))
 		} else if id, ok := x.(*ast.Ident); ok {
 			measured = info.ObjectOf(id)
 		} else if cl, ok := x.(*ast.CallExpr); ok && len(cl.Args) == 1 {
@@ -356,15 +365,11 @@ func (s *c16Scanner) checkConstruction() {
 				}
 			}
 		}
-		if measured == nil {
-			return true
-		}
-		acc := info.ObjectOf(lid)
-		if acc == s.w {
+		if measured == nil || acc == s.w {
 			return true
 		}
 		s.measure[measured] = acc
-		s.measureLoop[rs] = true
+		s.measureLoop[st] = true
 		return true
 	})
 	for _, p := range []struct {
@@ -438,8 +443,15 @@ func (s *c16Scanner) checkWord() {
 	n := 0
 	ast.Inspect(s.loop.Body, func(nd ast.Node) bool {
 		if as, ok := nd.(*ast.AssignStmt); ok {
-			for _, l := range as.Lhs {
+			for i, l := range as.Lhs {
 				if s.isObj(l, s.word) {
+					// clearing the word (nil / empty) is what the declaration already did
+					if len(as.Rhs) == len(as.Lhs) {
+						r := unparen(as.Rhs[i])
+						if isNilExpr(info, r) || c16IsEmptyLit(r) {
+							continue
+						}
+					}
 					n++
 					asg = as
 				}
@@ -501,7 +513,7 @@ func (s *c16Scanner) checkWord() {
 			fail("word is not seg[:i+1]")
 		}
 		// followed by break, directly in the loop body; preceded by `if unicode.IsSpace(r) { continue }` with r from seg[i]
-		body := loop.Body.List
+		body := c15Flat(loop.Body.List)
 		idx := -1
 		for k, st := range body {
 			if st == ast.Stmt(asg) {
@@ -510,8 +522,13 @@ func (s *c16Scanner) checkWord() {
 		}
 		if idx < 0 || idx+1 >= len(body) {
 			fail("word = seg[:i+1] is not followed by break")
-		} else if b, isB := body[idx+1].(*ast.BranchStmt); !isB || b.Tok != token.BREAK || b.Label != nil {
+		} else if b, isB := body[idx+1].(*ast.BranchStmt); !isB || b.Tok != token.BREAK {
 			fail("word = seg[:i+1] is not followed by break")
+		} else if b.Label != nil && containsNode(loop, func(n ast.Node) bool {
+			ls, ok := n.(*ast.LabeledStmt)
+			return ok && ls.Label.Name == b.Label.Name
+		}) {
+			fail("word = seg[:i+1] is followed by a break that stays inside the trim loop")
 		}
 		spaceSkip := false
 		for k := 0; k < idx; k++ {
@@ -569,8 +586,8 @@ type c16Path struct {
 	restSet   bool
 	state     string // orig | seg | fresh | odd
 	exit      string // return | back | break
-	trimmed   bool   // seg lost its trailing terminator on this path
-	trimGuard bool   // ... under HasTrailingLineBreak
+	exitLabel string
+	trimmed   bool // seg lost its trailing terminator on this path
 	pos       token.Pos
 	odd       []string
 }
@@ -612,6 +629,12 @@ func (s *c16Scanner) piece(x ast.Expr, p *c16Path) string {
 			return "seg-terminator"
 		}
 		return "seg"
+	}
+	if sl, ok := x.(*ast.SliceExpr); ok && s.isObj(sl.X, s.seg) && sl.Low == nil && sl.High != nil && s.isTerminatorCut(sl.High) {
+		if !p.mayCut() {
+			p.odd = append(p.odd, "the segment is cut ("+types.ExprString(x)+") without HasTrailingLineBreak having been tested")
+		}
+		return "seg-terminator"
 	}
 	return "?" + types.ExprString(x)
 }
@@ -732,14 +755,91 @@ func (s *c16Scanner) step(st ast.Stmt, p c16Path) []c16Path {
 		}
 		return []c16Path{p}
 	case *ast.BranchStmt:
+		lbl := ""
+		if t.Label != nil {
+			lbl = t.Label.Name
+		}
 		switch t.Tok {
 		case token.CONTINUE:
 			p.exit = "back"
+			if lbl != "" && lbl != s.loopLabel() {
+				p.exit = "break"
+				p.odd = append(p.odd, "continue of a loop other than the segment loop")
+			}
 		default:
 			p.exit = "break"
+			p.exitLabel = lbl
 		}
 		p.pos = t.Pos()
 		return []c16Path{p}
+	case *ast.LabeledStmt:
+		outs := s.step(t.Stmt, p)
+		for i := range outs {
+			if outs[i].exit == "break" && outs[i].exitLabel == t.Label.Name {
+				if _, isLoop := t.Stmt.(*ast.ForStmt); !isLoop {
+					outs[i].exit, outs[i].exitLabel = "", ""
+				}
+			}
+		}
+		return outs
+	case *ast.SwitchStmt:
+		if !s.hasEvents(t) {
+			return []c16Path{p}
+		}
+		if t.Init != nil && s.hasEvents(t.Init) {
+			p.odd = append(p.odd, "switch-init with effects")
+		}
+		// an if/else-if chain in disguise
+		var outs []c16Path
+		cur := p.clone()
+		var deflt *ast.CaseClause
+		for _, cc := range t.Body.List {
+			cl := cc.(*ast.CaseClause)
+			if cl.List == nil {
+				deflt = cl
+				continue
+			}
+			var cond ast.Expr
+			for _, x := range cl.List {
+				var one ast.Expr = x
+				if t.Tag != nil {
+					one = &ast.BinaryExpr{X: t.Tag, Op: token.EQL, Y: x}
+					if tv, ok := s.info.Types[x]; ok && tv.Value != nil {
+						switch tv.Value.String() {
+						case "true":
+							one = t.Tag
+						case "false":
+							one = &ast.UnaryExpr{Op: token.NOT, X: t.Tag}
+						}
+					}
+				}
+				if cond == nil {
+					cond = one
+				} else {
+					cond = &ast.BinaryExpr{X: cond, Op: token.LOR, Y: one}
+				}
+			}
+			lbl := s.condLabel(cond)
+			yes, no := "+", "-"
+			if strings.HasPrefix(lbl, "!") {
+				lbl, yes, no = lbl[1:], "-", "+"
+			}
+			a := cur.clone()
+			a.conds = append(a.conds, lbl+yes)
+			outs = append(outs, s.exec(cl.Body, a)...)
+			cur.conds = append(cur.conds, lbl+no)
+		}
+		if deflt != nil {
+			outs = append(outs, s.exec(deflt.Body, cur)...)
+		} else {
+			outs = append(outs, cur)
+		}
+		for i := range outs {
+			if outs[i].exit == "break" && outs[i].exitLabel == "" {
+				outs[i].exit = "" // leaves the switch only
+			}
+		}
+		return outs
 	case *ast.IfStmt:
 		if t.Init != nil && s.hasEvents(t.Init) {
 			p.odd = append(p.odd, "if-init with effects")
@@ -754,9 +854,6 @@ func (s *c16Scanner) step(st ast.Stmt, p c16Path) []c16Path {
 		}
 		a := p.clone()
 		a.conds = append(a.conds, lbl+yes)
-		if lbl == "TLB" && yes == "+" {
-			a.trimGuard = true
-		}
 		outs := s.exec(t.Body.List, a)
 		b := p.clone()
 		b.conds = append(b.conds, lbl+no)
@@ -766,16 +863,12 @@ func (s *c16Scanner) step(st ast.Stmt, p c16Path) []c16Path {
 			outs = append(outs, b)
 		}
 		// the TLB decision only matters for what is stripped; merge it out of the signature
-		for i := range outs {
-			outs[i].trimGuard = false
-		}
 		return outs
 	case *ast.ForStmt, *ast.RangeStmt:
 		if st == s.trimLoop || s.measureLoop[st] || !s.hasEvents(st) {
 			return []c16Path{p}
 		}
-		rs, ok := st.(*ast.RangeStmt)
-		if ok && s.recogniseSplit(rs) {
+		if s.recogniseSplit(st) {
 			if !p.restSet {
 				p.odd = append(p.odd, "the per-grapheme split appends to the old s.rest")
 			}
@@ -830,21 +923,9 @@ func (s *c16Scanner) step(st ast.Stmt, p c16Path) []c16Path {
 				// seg = seg[:len(seg)-k]
 				okTrim := false
 				if sl, ok := r.(*ast.SliceExpr); ok && s.isObj(sl.X, s.seg) && sl.Low == nil && sl.High != nil {
-					lenSeg := c15TermLin("len("+fmt.Sprintf("%p", s.seg)+")", "len(seg)", true)
-					d := c15LinOf(info, sl.High).add(lenSeg, -1)
-					// len(seg) - k with k a positive constant or the decoded length of the last rune
-					if len(d.co) == 0 && d.k < 0 {
-						okTrim = true
-					}
-					if len(d.co) == 1 && d.k == 0 {
-						for id, co := range d.co {
-							if co == -1 && s.isLastRuneLen(id) {
-								okTrim = true
-							}
-						}
-					}
+					okTrim = s.isTerminatorCut(sl.High)
 				}
-				if !okTrim || !p.trimGuard {
+				if !okTrim || !p.mayCut() {
 					p.odd = append(p.odd, "seg is reassigned ("+types.ExprString(t.Rhs[0])+") other than to drop its trailing line terminator under HasTrailingLineBreak")
 				}
 				p.trimmed = true
@@ -894,54 +975,77 @@ func (s *c16Scanner) isLastRuneLen(termID string) bool {
 //	Form B: for i, ch := range W { if C { rest += W[i:]...; break }; token += ch; w += ch.Width }
 //
 // W is word itself or ctx.Characters(string(word)).
-func (s *c16Scanner) recogniseSplit(rs *ast.RangeStmt) bool {
-	if s.splitLoop == rs {
+func (s *c16Scanner) recogniseSplit(loop ast.Stmt) bool {
+	if s.splitLoop == loop {
 		return s.splitOK
 	}
-	s.splitLoop, s.splitOK = rs, false
+	s.splitLoop, s.splitOK = loop, false
 	c, info := s.c, s.info
 	key := s.name + "/long word is split in order"
 	fail := func(format string, args ...any) bool {
-		c.bad("C16.a", key, rs.Pos(), format, args...)
+		c.bad("C16.a", key, loop.Pos(), format, args...)
 		s.splitOK = true // the path rule continues with the split event; the defect is reported here
 		return true
 	}
-	x := s.defs.resolve(rs.X)
-	okX := s.isObj(x, s.word)
+	it := c15IterOf(info, s.defs, loop)
+	if it == nil || !it.full {
+		s.und("C16.a", "long word is split in order", loop.Pos(), "split loop is not a front-to-back iteration")
+		return false
+	}
+	x := s.defs.resolve(it.x)
+	okX := s.isObj(x, s.word) || s.isObj(it.x, s.word)
 	if cl, ok := unparen(x).(*ast.CallExpr); ok && len(cl.Args) == 1 {
 		if fsel, ok := cl.Fun.(*ast.SelectorExpr); ok && fsel.Sel.Name == "Characters" && s.isObj(c16StripConv(info, cl.Args[0]), s.word) {
 			okX = true
 		}
 	}
 	if !okX {
-		return fail("the split loop ranges over %s, not over the graphemes of the word", types.ExprString(rs.X))
+		return fail("the split loop iterates over %s, not over the graphemes of the word", types.ExprString(it.x))
 	}
-	if rs.Value == nil || len(rs.Body.List) < 2 {
-		s.und("C16.a", "long word is split in order", rs.Pos(), "split loop shape not recognised")
+	body := c15Flat(it.body.List)
+	if len(body) < 2 {
+		s.und("C16.a", "long word is split in order", loop.Pos(), "split loop shape not recognised")
 		return false
 	}
-	ch := info.ObjectOf(rs.Value.(*ast.Ident))
 	isCh := func(e ast.Expr) bool {
 		e = c16StripConv(info, e)
 		if sel, ok := e.(*ast.SelectorExpr); ok && sel.Sel.Name == "Grapheme" {
 			e = sel.X
 		}
-		return s.isObj(e, ch)
+		return it.isElem(e)
 	}
-	ifs, ok := rs.Body.List[0].(*ast.IfStmt)
-	if !ok || ifs.Else != nil || ifs.Init != nil || len(ifs.Body.List) < 2 {
-		s.und("C16.a", "long word is split in order", rs.Pos(), "split loop does not start with `if <full> { rest...; continue|break }`")
+	mentionsElem := func(n ast.Node) bool {
+		return containsNode(n, func(m ast.Node) bool {
+			e, ok := m.(ast.Expr)
+			return ok && it.isElem(e)
+		})
+	}
+	ifs, ok := body[0].(*ast.IfStmt)
+	if !ok || ifs.Else != nil || ifs.Init != nil {
+		s.und("C16.a", "long word is split in order", loop.Pos(), "split loop does not start with `if <full> { rest...; continue|break }`")
 		return false
 	}
-	last := ifs.Body.List[len(ifs.Body.List)-1]
-	br, _ := last.(*ast.BranchStmt)
-	if br == nil || br.Label != nil {
+	tb := c15Flat(ifs.Body.List)
+	if len(tb) < 2 {
+		s.und("C16.a", "long word is split in order", ifs.Pos(), "the full-line branch is not `rest += ...; continue|break`")
+		return false
+	}
+	br, _ := tb[len(tb)-1].(*ast.BranchStmt)
+	if br == nil {
 		s.und("C16.a", "long word is split in order", ifs.Pos(), "the full-line branch does not end in continue/break")
 		return false
 	}
+	// a label must denote this very loop
+	if br.Label != nil {
+		ls, ok := s.par[loop].(*ast.LabeledStmt)
+		if !ok || info.ObjectOf(ls.Label) != info.ObjectOf(br.Label) {
+			s.und("C16.a", "long word is split in order", br.Pos(), "the full-line branch jumps to another statement")
+			return false
+		}
+	}
 	// false branch: token += ch ; w += ch.Width
-	tokOK, wOK := false, false
-	for _, st := range rs.Body.List[1:] {
+	tokOK := false
+	for _, st := range body[1:] {
 		as, ok := st.(*ast.AssignStmt)
 		if !ok {
 			s.und("C16.a", "long word is split in order", st.Pos(), "unexpected statement in the split loop")
@@ -951,9 +1055,10 @@ func (s *c16Scanner) recogniseSplit(rs *ast.RangeStmt) bool {
 			tokOK = true
 			continue
 		}
-		if inc, isAdv := c16Advance(info, as, s.w); isAdv && inc.canon() == c15TermLin(fmt.Sprintf("%p", ch)+".Width", ch.Name()+".Width", true).canon() {
-			wOK = true
-			continue
+		if inc, isAdv := c16Advance(info, as, s.w); isAdv {
+			if wT, found := it.elemField(as.Rhs[0], "Width"); found && inc.canon() == wT.canon() {
+				continue
+			}
 		}
 		s.und("C16.a", "long word is split in order", st.Pos(), "unexpected statement in the split loop")
 		return false
@@ -961,30 +1066,24 @@ func (s *c16Scanner) recogniseSplit(rs *ast.RangeStmt) bool {
 	if !tokOK {
 		return fail("graphemes that fit are not appended to the token")
 	}
-	_ = wOK // checked by C16.e
 	switch br.Tok {
 	case token.CONTINUE:
 		// Form A: true branch appends ch to rest; C must not depend on ch and the true branch must not change C's operands
-		if len(ifs.Body.List) != 2 {
+		if len(tb) != 2 {
 			s.und("C16.a", "long word is split in order", ifs.Pos(), "unexpected statements in the full-line branch")
 			return false
 		}
-		as, ok := ifs.Body.List[0].(*ast.AssignStmt)
+		as, ok := tb[0].(*ast.AssignStmt)
 		if !ok || s.appendOf(as, "rest") == nil || !isCh(s.appendOf(as, "rest")) {
 			return fail("a grapheme that does not fit is not appended to the new rest: it is lost")
 		}
-		dependsOnCh := containsNode(ifs.Cond, func(n ast.Node) bool {
-			id, ok := n.(*ast.Ident)
-			return ok && info.ObjectOf(id) == ch
-		})
-		if dependsOnCh {
+		if mentionsElem(ifs.Cond) {
 			return fail("the full-line test depends on the current grapheme but later graphemes are tested again: a narrower grapheme can jump ahead of a wider one that was moved to rest (order is lost)")
 		}
 		paths := c15Paths(info, ifs.Cond)
 		if c15Modifies(info, ifs.Body, paths, map[types.Object]bool{}) {
 			return fail("the full-line branch modifies the operands of its own test: a later grapheme can go to the token after an earlier one went to rest")
 		}
-		// C must be monotone in w: only the form  w >= X / w > X with X untouched by the false branch is accepted
 		f := c15Formula(info, ifs.Cond)
 		if !s.monotoneInW(f) {
 			s.und("C16.a", "long word is split in order", ifs.Cond.Pos(), "cannot show that the full-line test stays true once true (expected a lower bound on w)")
@@ -992,29 +1091,36 @@ func (s *c16Scanner) recogniseSplit(rs *ast.RangeStmt) bool {
 		}
 	case token.BREAK:
 		// Form B: the true branch moves W[i:] to rest
-		if rs.Key == nil {
+		if it.idx == nil {
 			return fail("the split loop breaks without moving the remaining graphemes to rest")
 		}
-		iObj := info.ObjectOf(rs.Key.(*ast.Ident))
+		isTail := func(e ast.Expr) bool { // W[i:]
+			sl, ok := unparen(e).(*ast.SliceExpr)
+			return ok && sl.High == nil && s.isObj(sl.Low, it.idx) && termOf(info, c16StripConv(info, sl.X)).ID == it.xID
+		}
 		moved := false
-		for _, st := range ifs.Body.List[:len(ifs.Body.List)-1] {
+		for _, st := range tb[:len(tb)-1] {
 			switch t := st.(type) {
 			case *ast.AssignStmt: // s.rest = append(s.rest, W[i:]...)
-				if x := s.appendOf(t, "rest"); x != nil {
-					if sl, ok := unparen(x).(*ast.SliceExpr); ok && sl.High == nil && s.isObj(sl.Low, iObj) && types.ExprString(unparen(sl.X)) == types.ExprString(unparen(rs.X)) {
-						moved = true
-					}
+				if x := s.appendOf(t, "rest"); x != nil && isTail(x) {
+					moved = true
 				}
-			case *ast.RangeStmt: // for _, c := range W[i:] { s.rest = append(s.rest, []byte(c.Grapheme)...) }
-				if sl, ok := unparen(t.X).(*ast.SliceExpr); ok && sl.High == nil && s.isObj(sl.Low, iObj) && types.ExprString(unparen(sl.X)) == types.ExprString(unparen(rs.X)) && t.Value != nil && len(t.Body.List) == 1 {
-					c2 := info.ObjectOf(t.Value.(*ast.Ident))
-					if as, ok := t.Body.List[0].(*ast.AssignStmt); ok {
+			case *ast.ForStmt, *ast.RangeStmt: // for each c of W[i:] { s.rest = append(s.rest, []byte(c.Grapheme)...) }
+				it2 := c15IterOf(info, s.defs, st)
+				if it2 == nil || !it2.full {
+					continue
+				}
+				b2 := c15Flat(it2.body.List)
+				ok2 := isTail(it2.x) && len(b2) == 1
+				// `for j := i; j < len(W); j++ { rest += W[j] }` is the same thing
+				if ok2 {
+					if as, ok := b2[0].(*ast.AssignStmt); ok {
 						if x := s.appendOf(as, "rest"); x != nil {
 							e := c16StripConv(info, x)
 							if sel, ok := e.(*ast.SelectorExpr); ok && sel.Sel.Name == "Grapheme" {
 								e = sel.X
 							}
-							if s.isObj(e, c2) {
+							if it2.isElem(e) {
 								moved = true
 							}
 						}
@@ -1029,7 +1135,7 @@ func (s *c16Scanner) recogniseSplit(rs *ast.RangeStmt) bool {
 		s.und("C16.a", "long word is split in order", br.Pos(), "unexpected branch statement")
 		return false
 	}
-	c.ok("C16.a", key, rs.Pos(), "graphemes go to the token until the line is full, all later ones to rest, in order")
+	c.ok("C16.a", key, loop.Pos(), "graphemes go to the token until the line is full, all later ones to rest, in order")
 	s.splitOK = true
 	return true
 }
@@ -1298,6 +1404,8 @@ func c16Run(c *Ctx, s *c16Scanner) (sigs map[string]c16Path) {
 }
 
 func runC16(c *Ctx) {
+	// helper extraction and named locals are undone first (c15norm.go): every rule below, and the extra rules, see the normal form
+	c15Normalise(c, []string{"vxfw/text", "vxfw/richtext"}, c15Anchors)
 	c.Clauses = []string{
 		"C16.a segment accounting on every path of both Scan loops (word/trSpace/rest each once, in order, only trSpace droppable; unconsumed paths add nothing; back edges consume); seg = word ++ trSpace; rest = s.rest[len(seg):]; the long-word split is monotone",
 		"C16.b the hard-break path returns and strips only a trailing line terminator",
@@ -1315,7 +1423,7 @@ func runC16(c *Ctx) {
 	c.expect("C16.a", 26)
 	c.expect("C16.b", 4)
 	c.expect("C16.c", 5)
-	c.expect("C16.d", 30)
+	c.expect("C16.d", 28)
 	c.expect("C16.e", 20)
 	c.expect("C16.f", 6)
 	c.expect("C16.g", 2)
@@ -1382,15 +1490,19 @@ func (s *c16Scanner) widthRule() {
 		var what string
 		emptyLineOK := false
 		ws := false
-		var chObj types.Object
+		isChar := false
+		segCut := false
+		if sl, ok := x.(*ast.SliceExpr); ok && s.isObj(sl.X, s.seg) && sl.Low == nil && sl.High != nil && s.isTerminatorCut(sl.High) {
+			segCut = true
+		}
 		switch {
-		case s.isObj(x, s.word), s.isObj(x, s.seg):
+		case s.isObj(x, s.word), s.isObj(x, s.seg), segCut:
 			acc := s.measure[s.word]
 			if acc == nil {
 				continue
 			}
 			m, what = c15TermLin(fmt.Sprintf("%p", acc), acc.Name(), true), "the word"
-			if s.isObj(x, s.seg) {
+			if s.isObj(x, s.seg) || segCut {
 				what = "the segment's word"
 			}
 		case s.isObj(x, s.trSpace):
@@ -1405,13 +1517,35 @@ func (s *c16Scanner) widthRule() {
 			if sel, ok := e.(*ast.SelectorExpr); ok && sel.Sel.Name == "Grapheme" {
 				e = sel.X
 			}
-			id, ok := unparen(e).(*ast.Ident)
-			if !ok {
+			// an element of the loop this append sits in; its width is what the loop adds to w
+			var it *c15Iter
+			if lp := c15LoopOf(s.par, as); lp != nil {
+				it = c15IterOf(info, s.defs, lp)
+			}
+			if it == nil || !it.isElem(e) {
 				c.undecided("C16.e", s.name+"/token += "+types.ExprString(x), as.Pos(), "appended material not recognised")
 				continue
 			}
-			chObj = info.ObjectOf(id)
-			m, what = c15TermLin(fmt.Sprintf("%p", chObj)+".Width", chObj.Name()+".Width", true), "a grapheme of a long word"
+			found := false
+			ast.Inspect(it.body, func(n ast.Node) bool {
+				a2, ok := n.(*ast.AssignStmt)
+				if !ok || found {
+					return !found
+				}
+				if inc, isAdv := c16Advance(info, a2, s.w); isAdv {
+					if wT, ok := it.elemField(a2.Rhs[0], "Width"); ok && wT.canon() == inc.canon() {
+						m, found = wT, true
+					}
+				}
+				return true
+			})
+			if !found {
+				// no advance at all: the width term cannot be named; report it as the missing advance
+				c.bad("C16.e", s.name+"/w advanced after adding a grapheme of a long word", as.Pos(), "a grapheme is added to the token but the loop never adds its Width to the line width: the line overflows")
+				continue
+			}
+			isChar = true
+			what = "a grapheme of a long word"
 			emptyLineOK = true
 		}
 		key := s.name + "/" + what + " is added only if it fits"
@@ -1437,7 +1571,7 @@ func (s *c16Scanner) widthRule() {
 			return ok && inc.canon() == m.canon()
 		}
 		target := segLoc
-		if chObj != nil {
+		if isChar {
 			target = h.Loc
 		}
 		if !okSeg {
@@ -1675,40 +1809,42 @@ func c16DrawLoop(c *Ctx, fi *FuncInfo, soft bool) {
 	// col: declared inside the line loop (restarts at 0), advanced after each written cell
 	c.check(declIn(colObj, loop.Body) && zeroDecl(colObj), "C16.d", name+"/col restarts at 0 for each line", colObj.Pos(), "declared inside the line loop with value 0", "the column counter is not re-declared (zero) for each line: the second line starts where the first ended")
 	for _, w := range writes {
-		// which cell is written?
+		// which cell is written? the element of the enclosing iteration over the scanner's line
 		cell := defs.resolve(w.call.Args[2])
-		var chObj types.Object
+		var chExpr ast.Expr
 		ellipsis := false
 		if cl, ok := unparen(cell).(*ast.CompositeLit); ok {
 			for _, el := range cl.Elts {
 				if kv, ok := el.(*ast.KeyValueExpr); ok {
 					if k, ok := kv.Key.(*ast.Ident); ok && k.Name == "Character" {
-						if id, ok := unparen(kv.Value).(*ast.Ident); ok {
-							chObj = info.ObjectOf(id)
-						} else {
+						if _, isLit := unparen(defs.resolve(kv.Value)).(*ast.CompositeLit); isLit {
 							ellipsis = true
+						} else {
+							chExpr = kv.Value
 						}
 					}
 				}
 			}
-		} else if id, ok := unparen(cell).(*ast.Ident); ok {
-			chObj = info.ObjectOf(id)
+		} else {
+			chExpr = cell
 		}
 		key := name + "/the cell written belongs to the scanner's current line"
 		if ellipsis && !soft {
 			c.okTrivial("C16.d", name+"/truncation marker", w.call.Pos(), "the ellipsis of the non-wrapping path (not part of the soft-wrap clause)")
 			continue
 		}
-		// chObj must be the value variable of a range over the scanner's line
 		okLine := false
-		var inner *ast.RangeStmt
+		var it *c15Iter
 		for _, l := range c15EnclosingLoops(par, w.call) {
-			if rs, ok := l.(*ast.RangeStmt); ok && rs.Value != nil && chObj != nil && info.ObjectOf(rs.Value.(*ast.Ident)) == chObj {
-				inner = rs
+			if l == ast.Stmt(loop) {
+				break
+			}
+			if cand := c15IterOf(info, defs, l); cand != nil && chExpr != nil && cand.isElem(chExpr) {
+				it = cand
 			}
 		}
-		if inner != nil {
-			x := defs.resolve(inner.X)
+		if it != nil {
+			x := defs.resolve(it.x)
 			if cl, ok := unparen(x).(*ast.CallExpr); ok {
 				if sel, ok := cl.Fun.(*ast.SelectorExpr); ok && sel.Sel.Name == "Characters" && len(cl.Args) == 1 {
 					x = unparen(cl.Args[0])
@@ -1717,23 +1853,30 @@ func c16DrawLoop(c *Ctx, fi *FuncInfo, soft bool) {
 				if cl != nil {
 					if sel, ok := cl.Fun.(*ast.SelectorExpr); ok && (sel.Sel.Name == "Text" || sel.Sel.Name == "Line") && rootObj(info, sel.X) == scanner && len(cl.Args) == 0 {
 						// evaluated inside the line loop (this iteration's line)
-						okLine = loop.Body.Pos() <= cl.Pos() && cl.End() <= loop.Body.End()
+						okLine = containsNode(loop.Body, func(n ast.Node) bool { return n == ast.Node(cl) })
 					}
 				}
 			}
 		}
-		c.check(okLine, "C16.d", key, w.call.Pos(), "ranges over scanner.Text()/Line() of this iteration", "the cell written is not a grapheme of the line the scanner just emitted")
+		c.check(okLine, "C16.d", key, w.call.Pos(), "iterates over scanner.Text()/Line() of this iteration", "the cell written is not a grapheme of the line the scanner just emitted")
 		// col advanced by this cell's width before the next write
 		isAdv := func(n ast.Node) bool { return false }
-		if chObj != nil {
-			isAdv = isIncBy(colObj, c15TermLin(fmt.Sprintf("%p", chObj)+".Width", chObj.Name()+".Width", true))
+		if it != nil {
+			isAdv = func(n ast.Node) bool {
+				as, ok := n.(*ast.AssignStmt)
+				if !ok || len(as.Rhs) != 1 {
+					return false
+				}
+				inc, adv := c16Advance(info, as, colObj)
+				if !adv {
+					return false
+				}
+				wT, found := it.elemField(as.Rhs[0], "Width")
+				return found && wT.canon() == inc.canon()
+			}
 		}
 		isReset := func(n ast.Node) bool {
-			ds, ok := n.(*ast.DeclStmt)
-			if !ok {
-				return false
-			}
-			return containsNode(ds, func(m ast.Node) bool {
+			return containsNode(n, func(m ast.Node) bool {
 				id, ok := m.(*ast.Ident)
 				return ok && info.Defs[id] == colObj
 			})
@@ -1779,4 +1922,41 @@ func c16Advance(info *types.Info, n ast.Node, o types.Object) (c15Lin, bool) {
 		}
 	}
 	return c15Lin{}, false
+}
+
+func (s *c16Scanner) loopLabel() string {
+	if ls, ok := s.par[s.loop].(*ast.LabeledStmt); ok {
+		return ls.Label.Name
+	}
+	return ""
+}
+
+// isTerminatorCut: high == len(seg) - k with k a positive constant or the decoded size of seg's last rune.
+func (s *c16Scanner) isTerminatorCut(high ast.Expr) bool {
+	lenSeg := c15TermLin("len("+fmt.Sprintf("%p", s.seg)+")", "len(seg)", true)
+	d := c15LinOf(s.info, high).add(lenSeg, -1)
+	if len(d.co) == 0 && d.k < 0 {
+		return true
+	}
+	if len(d.co) == 1 && d.k == 0 {
+		for id, co := range d.co {
+			if co == -1 && s.isLastRuneLen(id) {
+				return true
+			}
+		}
+	}
+	return false
+}
+
+// mayCut: on this path the last terminator test said "seg ends in a line terminator" and seg has not been cut yet.
+func (p *c16Path) mayCut() bool {
+	if p.trimmed {
+		return false
+	}
+	for i := len(p.conds) - 1; i >= 0; i-- {
+		if strings.HasPrefix(p.conds[i], "TLB") {
+			return p.conds[i] == "TLB+"
+		}
+	}
+	return false
 }
